@@ -176,6 +176,11 @@ func checkOutcome(o *corr.Out, rq request, out outcome) {
 		frames, ok := parseFrames(body)
 		if !ok || len(frames) == 0 || frames[len(frames)-1].flag != 0x80 {
 			o.Oracle("grpcweb-body", in, "body does not parse as frames ending in a trailer frame: "+digest(body))
+			if ok && failed {
+				// well-formed message frames and nothing after them: the client sees HTTP 200 and no status at all
+				o.Oracle("grpc-status-nonzero-iff-failed", in, fmt.Sprintf("the RPC failed (error text of %d bytes) but the response is status 200 with %d message frame(s) and no trailer frame",
+					len(h.ret.Error()), len(frames)))
+			}
 			return
 		}
 		msgs := frames[:len(frames)-1]
